@@ -46,6 +46,7 @@ type vMethod struct {
 	empty     bool
 	setsRoot  bool
 	unsupCall bool // a top-level statement of the body is s.newUnsupportedRuleError(...)
+	unsupAfter bool // the body is `if s.n++; s.n > 1 { s.newUnsupportedRuleError(ctx) }`
 	parts     []int // Parts / partIdx bookkeeping operations (see partsOps)
 	actions   []vAction
 }
@@ -883,7 +884,24 @@ func visitorFacts(repo string, w *strings.Builder) error {
 				}
 			}
 		}
-		methods = append(methods, vMethod{typ: rt, name: fd.Name.Name, rule: r, enter: strings.HasPrefix(fd.Name.Name, "Enter"), unsupCall: unsupCall, parts: x.partsOps(fd.Body.List, env.recv, rt, 0),
+		// `if s.<n>++; s.<n> > 1 { s.newUnsupportedRuleError(ctx) }` as the whole body: every occurrence after the first is reported
+		unsupAfter := false
+		if len(fd.Body.List) == 1 {
+			if is, ok := fd.Body.List[0].(*ast.IfStmt); ok && is.Init != nil && is.Else == nil && len(is.Body.List) == 1 {
+				if inc, ok := is.Init.(*ast.IncDecStmt); ok && inc.Tok == token.INC {
+					if be, ok := is.Cond.(*ast.BinaryExpr); ok && be.Op == token.GTR && src(x.fset, be.X) == src(x.fset, inc.X) && src(x.fset, be.Y) == "1" {
+						if es, ok := is.Body.List[0].(*ast.ExprStmt); ok {
+							if c, ok := es.X.(*ast.CallExpr); ok {
+								if sel, ok := c.Fun.(*ast.SelectorExpr); ok && sel.Sel.Name == "newUnsupportedRuleError" {
+									unsupAfter = true
+								}
+							}
+						}
+					}
+				}
+			}
+		}
+		methods = append(methods, vMethod{typ: rt, name: fd.Name.Name, rule: r, enter: strings.HasPrefix(fd.Name.Name, "Enter"), unsupCall: unsupCall, unsupAfter: unsupAfter, parts: x.partsOps(fd.Body.List, env.recv, rt, 0),
 			addsErr: callsNamed(fd.Body, "AddErrors") || callsNamed(fd.Body, "newUnsupportedRuleError"),
 			empty:   len(fd.Body.List) == 0, setsRoot: setsRoot, actions: acts})
 	}
@@ -1017,7 +1035,12 @@ func visitorFacts(repo string, w *strings.Builder) error {
 	for _, a := range atoms {
 		switch {
 		case a == "anylit":
-			codes = append(codes, "(2, 0)")
+			// (2, k): k = token type of SP when newTokenLiteralIterator skips SP tokens (comments included), else 0
+			spSkip := 0
+			if fd := x.funcs["newTokenLiteralIterator"]; fd != nil && strings.Contains(src(x.fset, fd.Body), "GetTokenType() == parser.CypherLexerSP") {
+				spSkip = x.tokenOf["CypherLexerSP"]
+			}
+			codes = append(codes, fmt.Sprintf("(2, %d)", spSkip))
 		case strings.HasPrefix(a, "tok:"):
 			codes = append(codes, "(0, "+a[4:]+")")
 		case strings.HasPrefix(a, "rule:"):
@@ -1099,6 +1122,13 @@ func visitorFacts(repo string, w *strings.Builder) error {
 		}
 	}
 	fmt.Fprintf(w, "/-- (receiver type, rule) of every EnterOC_<rule> of a visitor OTHER than BaseVisitor whose body unconditionally calls newUnsupportedRuleError -/\ndef unsupMethods : List (Nat × Nat) := [%s]\n", strings.Join(up, ", "))
+	var ua []string
+	for _, m := range methods {
+		if m.unsupAfter && m.enter {
+			ua = append(ua, fmt.Sprintf("(%d, %d)", typeIdx[m.typ], m.rule))
+		}
+	}
+	fmt.Fprintf(w, "/-- (receiver type, rule) of every EnterOC_<rule> whose body is `if s.n++; s.n > 1 { s.newUnsupportedRuleError(ctx) }`: the second and every later node of the rule met by one visitor instance is reported -/\ndef unsupAfterFirst : List (Nat × Nat) := [%s]\n", strings.Join(ua, ", "))
 	var po []string
 	for _, m := range methods {
 		if len(m.parts) > 0 {
@@ -1139,6 +1169,11 @@ func visitorFacts(repo string, w *strings.Builder) error {
 	fmt.Fprintf(w, "def srcAddErrors : String := %s\n", leanStr(funcSrc("Context.AddErrors")))
 	fmt.Fprintf(w, "def srcNewUnsupportedRuleError : String := %s\n", leanStr(funcSrc("BaseVisitor.newUnsupportedRuleError")))
 	fmt.Fprintf(w, "def srcParseCypherInner : String := %s\n", leanStr(funcSrc("parseCypher")))
+	// the five places hooks/C07-fix{1,2,3,5,6}.patch repair (each must be the old or the repaired text)
+	fmt.Fprintf(w, "def srcNewTokenLiteralIterator : String := %s\n", leanStr(funcSrc("newTokenLiteralIterator")))
+	fmt.Fprintf(w, "def srcEnterRangeLiteral : String := %s\n", leanStr(funcSrc("RelationshipPatternVisitor.EnterOC_RangeLiteral")))
+	fmt.Fprintf(w, "def srcExitNotExpression : String := %s\n", leanStr(funcSrc("ExpressionVisitor.ExitOC_NotExpression")+" "+funcSrc("JoiningVisitor.ExitOC_NotExpression")))
+	fmt.Fprintf(w, "def srcEnterPropertyLookupOfPropertyExpression : String := %s\n", leanStr(funcSrc("PropertyExpressionVisitor.EnterOC_PropertyLookup")))
 	// format.formatFloatLiteral as written (cypher/models/cypher/format/format.go)
 	fltSrc := "<missing>"
 	if ffset, ffiles, err := parseDir(filepath.Join(repo, "cypher", "models", "cypher", "format")); err == nil {
@@ -1155,6 +1190,38 @@ func visitorFacts(repo string, w *strings.Builder) error {
 		}
 	}
 	fmt.Fprintf(w, "def srcFormatFloatLiteral : String := %s\n", leanStr(fltSrc))
+	// format.go, WriteExpression: the first statement of `case *cypher.FunctionInvocation:` (namespace) and the operand line of `case *cypher.Negation:`
+	fnNsSrc, negSrc := "<missing>", "<missing>"
+	if ffset, ffiles, err := parseDir(filepath.Join(repo, "cypher", "models", "cypher", "format")); err == nil {
+		for _, f := range ffiles {
+			ast.Inspect(f, func(n ast.Node) bool {
+				cc, ok := n.(*ast.CaseClause)
+				if !ok || len(cc.List) != 1 || len(cc.Body) == 0 {
+					return true
+				}
+				one := func(st ast.Stmt) string {
+					var b bytes.Buffer
+					_ = (&printer.Config{Mode: printer.RawFormat}).Fprint(&b, ffset, &printer.CommentedNode{Node: st, Comments: nil})
+					return strings.Join(strings.Fields(b.String()), " ")
+				}
+				switch src(ffset, cc.List[0]) {
+				case "*cypher.FunctionInvocation":
+					if fnNsSrc == "<missing>" {
+						fnNsSrc = one(cc.Body[0])
+					}
+				case "*cypher.Negation":
+					for _, st := range cc.Body {
+						if s := one(st); negSrc == "<missing>" && strings.Contains(s, "writeOperand(") {
+							negSrc = s
+						}
+					}
+				}
+				return true
+			})
+		}
+	}
+	fmt.Fprintf(w, "def srcFormatFunctionNamespace : String := %s\n", leanStr(fnNsSrc))
+	fmt.Fprintf(w, "def srcFormatNegationOperand : String := %s\n", leanStr(negSrc))
 	// token table
 	sort.Slice(lexerToks, func(i, j int) bool { return lexerToks[i].n < lexerToks[j].n })
 	var tk []string
